@@ -274,6 +274,7 @@ pub fn run(case: &Sexp) -> Sexp {
         } else {
             stale += 1;
         }
+        let failed = !(good && all_joined) && !(read_panic.load(SeqCst) && all_joined);
         if all_joined {
             for h in handles {
                 let _ = h.join();
@@ -286,6 +287,10 @@ pub fn run(case: &Sexp) -> Sexp {
             std::mem::forget(eff);
             std::mem::forget(d);
             std::mem::forget(owner);
+        }
+        if failed {
+            // one failing round decides the case: do not pay the watchdog again
+            break;
         }
     }
     Lst(vec![Num(ok), Num(lost), Num(stale), Num(hangs), Num(contended)])
